@@ -27,6 +27,7 @@ func runC12(c *an.Ctx) {
 	r12f(c)
 	r12g(c)
 	r12h(c)
+	r12i(c)
 }
 
 const ccPkg = "core/controlcommands"
@@ -529,4 +530,36 @@ func r12h(c *an.Ctx) {
 		}
 		c.Ob("(*core/controlcommands.Servent).RunCommand|waits-command-timeout", rc.Pos(), ok && n > 0, "RunCommand must bound its wait by GetResponseTimeout() of the command it was given (%d timer(s) found)", n)
 	}
+}
+
+// R12i: a command completes within its response timeout only if nothing on the way to arming the timer can block
+// for ever. A channel used as a counting semaphore (send to take a slot, receive to give it back) blocks for ever
+// once its slots have leaked; every path from taking a slot to leaving the function must give it back.
+func r12i(c *an.Ctx) {
+	c.Rule("R12i", "control commands: a slot taken from a channel semaphore is given back on every path out of the function", 10)
+	n := 0
+	for _, fn := range c.ModuleFuncs() {
+		if fn.Pkg == nil || !strings.HasSuffix(fn.Pkg.Pkg.Path(), ccPkg) {
+			continue
+		}
+		n++
+		c.Subject()
+		c.Mark(fn)
+		seen := map[string]bool{}
+		for _, lk := range an.SemaphoreLeaks(fn) {
+			ord := 0
+			an.Instrs(fn, func(in ssa.Instruction) {
+				if _, isSend := in.(*ssa.Send); isSend && in.Pos() < lk.Acquire.Pos() {
+					ord++
+				}
+			})
+			key := fmt.Sprintf("%s|slot-released#%d", an.Short(fn.String()), ord)
+			if seen[key] {
+				continue
+			}
+			seen[key] = true
+			c.Ob(key, lk.Exit.Pos(), false, "the slot taken at %s is still held when the function returns here: each such exit shrinks the semaphore, and once it is exhausted the next send blocks before the response timer exists - the command (and every command queued behind it) never completes", c.PosStr(lk.Acquire.Pos()))
+		}
+	}
+	c.Ob(ccPkg+"|slot-released|scanned", token.NoPos, n >= 10, "functions of the control-command package scanned for unbalanced channel semaphores: %d", n)
 }
